@@ -92,6 +92,38 @@ def work(case):
                     if isinstance(u, dict):
                         walk(u, u.get("cls", "table"))
             walk(rr, rr["cls"])
+            # consumers that hold several streams at once: open every image's stream first, read afterwards (document view, then the
+            # unit view); each stream must still start at 0 and deliver the bytes the image delivers when read on its own
+            try:
+                views = [("iterate_images", list(r.iterate_images()))]
+                try:
+                    views.append(("unit.get_images", [im for u in r.iterate_units() for im in u.get_images()]))
+                except Exception:
+                    pass
+                for vname, imgs in views:
+                    if len(imgs) < 2:
+                        continue
+                    solo = []
+                    for im in imgs:
+                        st = im.get_bytes()
+                        solo.append(st.read())
+                    streams = [im.get_bytes() for im in imgs]
+                    owner = {}
+                    for im, st in zip(imgs, streams):
+                        if id(st) in owner and owner[id(st)] is not im:
+                            out["broken"].append({"cls": type(im).__name__, "method": "get_bytes", "symptom": "stream-object-shared-between-images", "detail": f"two different images of {vname} hand out the same stream object"})
+                            break
+                        owner[id(st)] = im
+                    out["interleaved_streams"] = out.get("interleaved_streams", 0) + len(streams)
+                    for k, st in enumerate(streams):
+                        got = st.read()
+                        if got != solo[k]:
+                            out["broken"].append({"cls": type(imgs[k]).__name__, "method": "get_bytes", "symptom": "stream-differs-when-opened-with-others",
+                                                  "detail": f"{vname}: opened together with the other images' streams, image {k + 1} of {len(imgs)} reads {len(got)} bytes; read on its own {len(solo[k])}"})
+                            break
+            except Exception as e:
+                if type(e).__name__ == "CpuBudget":
+                    raise
             # also through the email attachment iterator
             if hasattr(r, "iterate_supported_attachments"):
                 try:
@@ -118,6 +150,15 @@ def work(case):
                     folders = {str(p.parent.resolve())} if p.parent.exists() else {str(p.parent)}
                     if meta.get("folder_path") not in folders:
                         out["path_bad"].append(f"folder_path={meta.get('folder_path')!r} for path {path!r}")
+            if kind == "zip" and "meta" in rr and path is not None:
+                # a member's metadata is derived from "<archive path>!/<member name>": its folder lies in (or is) "<archive path>!"
+                base = str(Path(path + "!"))
+                for f in ("folder_path", "file_path"):
+                    v = meta.get(f)
+                    if not (isinstance(v, str) and (v == base or v.startswith(base + "/"))):
+                        out["path_bad"].append(f"archive member: {f}={v!r} is not below {base!r} (archive path {path!r})")
+                        break
+                out["member_paths_judged"] = out.get("member_paths_judged", 0) + 1
             # textual document properties reported unchanged (generated documents only, unmutated)
             want = case.get("props")
             if want and not case["recipe"].get("op"):
@@ -125,7 +166,7 @@ def work(case):
                     fields = [f for f in PROP_FIELDS.get(key, []) if f in meta]
                     if fields and not any(meta.get(f) == val for f in fields):
                         out["prop_bad"].append(f"{key}: stored {val!r}, reported {[meta.get(f) for f in fields]!r}")
-        out["broken"] = REC.drain()
+        out["broken"] = out["broken"] + REC.drain()
         out["evals"] = dict(REC.evals)
         out["n_wrapped"] = len(WRAPPED)
     return out
@@ -135,6 +176,8 @@ def gen_cases(run):
     rng = run.rng
     from vlib.gen import docs, mutate
     sources = corpus.all_sources(n_gen=run.n(4, 30), base_seed=run.seed * 1000)
+    for name in ("tar-absolute-member-names", "zip-absolute-member-names"):
+        sources.setdefault("zip", []).append(["synth", name])
     cid = 0
     for kind in corpus.KINDS:
         for src in sources.get(kind, []):
@@ -176,6 +219,8 @@ def main(run):
             run.case(None, nontrivial=False)
             continue
         n_wrapped = max(n_wrapped, ob.get("n_wrapped", 0))
+        run.counters["archive_member_paths_judged"] = run.counters.get("archive_member_paths_judged", 0) + ob.get("member_paths_judged", 0)
+        run.counters["image_streams_opened_together"] = run.counters.get("image_streams_opened_together", 0) + ob.get("interleaved_streams", 0)
         for k, v in ob.get("evals", {}).items():
             evals_total[k] = max(evals_total.get(k, 0), v)
         mutated = bool(case["recipe"].get("op"))
@@ -213,6 +258,7 @@ def main(run):
     run.require("content_classes_reached", len(content_classes), 17)
     run.require("contract_methods_evaluated", len(evals_total), 60)
     run.require("mutated_inputs_accepted", accepted_mutated, run.n(100, 2000))
+    run.require("image_streams_opened_together", run.counters.get("image_streams_opened_together", 0), run.n(200, 2000))
 
 
 def replay(run, doc):
